@@ -110,6 +110,12 @@ var positions = []struct{ name, tmpl string }{
 	{"if in block helper", `<%%= blk() { %%><%%= if (%s) { %%>T<%% } else { %%>F<%% } %%><%% } %%>`},
 	{"silent if + let", `<%% let r = "F" %%><%% if (%s) { let r = "T" } %%><%%= r %%>`},
 	{"&& in silent tag", `<%% let r = %s && true %%><%%= if (r) { %%>T<%% } else { %%>F<%% } %%>`},
+	// the name w is first tested while it is still unknown, THEN bound by a loop / parameter / helper context, then tested again
+	{"unknown, then loop variable", `<%%= if (w) { %%>X<%% } %%><%%= for (w) in [%s] { %%><%%= if (w) { %%>T<%% } else { %%>F<%% } %%><%% } %%>`},
+	{"unknown, then loop variable, !", `<%%= if (!w) { %%><%% } %%><%%= for (w) in [%s] { %%><%%= if (!w) { %%>F<%% } else { %%>T<%% } %%><%% } %%>`},
+	{"unknown, then parameter", `<%%= if (w || w == nil) { %%><%% } %%><%% let f = fn(w) { %%><%%= if (w) { %%>T<%% } else { %%>F<%% } %%><%% } %%><%%= f(%s) %%>`},
+	{"unknown, then parameter, &&", `<%%= if (w && true) { %%>X<%% } %%><%% let f = fn(w) { %%><%%= if (true && w) { %%>T<%% } else { %%>F<%% } %%><%% } %%><%%= f(%s) %%>`},
+	{"unknown, then helper-context data", `<%%= if (w) { %%>X<%% } %%><%%= blkd({w: %s}) { %%><%%= if (w) { %%>T<%% } else { %%>F<%% } %%><%% } %%>`},
 }
 
 type TruthCase struct {
@@ -142,9 +148,22 @@ func checkTruth(r *vk.Run, c TruthCase) *vk.Fail {
 		spelling = "hv()"
 	}
 	src := fmt.Sprintf(p.tmpl, spelling)
+	if strings.HasPrefix(p.name, "unknown, then") && spelling == "v" && (k.mk == nil || k.mk() == nil) {
+		// these positions pass the value on: an unset name cannot be passed (that is an error by C05, not a truth value)
+		r.Exclude("value-needed")
+		return nil
+	}
 	data := map[string]interface{}{
 		"one": []int{1},
 		"blk": func(h plush.HelperContext) (template.HTML, error) { s, err := h.Block(); return template.HTML(s), err },
+		"blkd": func(d map[string]interface{}, h plush.HelperContext) (template.HTML, error) {
+			hc := h.New()
+			for k, v := range d {
+				hc.Set(k, v)
+			}
+			s, err := h.BlockWith(hc)
+			return template.HTML(s), err
+		},
 	}
 	if k.mk != nil && !c.Literal {
 		data["v"] = k.mk()
@@ -359,7 +378,7 @@ func checkNestSrc(r *vk.Run, prog []model.Node, src string, c NestCase) *vk.Fail
 	return nil
 }
 
-const rule = "(A, exhaustive) 53 value kinds (nil, bools, strings incl. \"false\"/\"0\", trusted HTML, typed nil pointers, non-nil pointers to zero values, unknown identifier, nil context value, every numeric width at 0, empty and non-empty slices/arrays/maps/structs, func, iterator, time, helper results) x 18 test positions (if, else-if, second else-if, !, !!, &&/|| on either side, emitted ! && ||, inside for / function / block helper, silent if, && in a silent tag), via a variable and via the literal spelling where one exists: the truth value must be the same everywhere and equal the table in the property. (B, exhaustive) every chain of 1..4 branches x every assignment of 9 condition values x with/without else x 5 placements, each condition wrapped in a recording helper: output = block of the first truthy branch, conditions evaluated = exactly the prefix up to it. (C, random) nested if/else-if/else chains with !, && and || conditions inside loops, compared with the reference interpreter incl. the evaluation trace. Non-trivial: every matrix cell and chain is (distinct by cell / chain / template)."
+const rule = "(A, exhaustive) 53 value kinds (nil, bools, strings incl. \"false\"/\"0\", trusted HTML, typed nil pointers, non-nil pointers to zero values, unknown identifier, nil context value, every numeric width at 0, empty and non-empty slices/arrays/maps/structs, func, iterator, time, helper results) x 23 test positions (if, else-if, second else-if, !, !!, &&/|| on either side, emitted ! && ||, inside for / function / block helper, silent if, && in a silent tag, and five sequences in which a name is first tested while unknown, then bound by a loop variable / parameter / helper-context data and tested again), via a variable and via the literal spelling where one exists: the truth value must be the same everywhere and equal the table in the property. (B, exhaustive) every chain of 1..4 branches x every assignment of 9 condition values x with/without else x 5 placements, each condition wrapped in a recording helper: output = block of the first truthy branch, conditions evaluated = exactly the prefix up to it. (C, random) nested if/else-if/else chains with !, && and || conditions inside loops, compared with the reference interpreter incl. the evaluation trace. Non-trivial: every matrix cell and chain is (distinct by cell / chain / template)."
 
 func setup(t *testing.T) *vk.Run {
 	r := vk.Start(t, "C07", rule,
